@@ -282,6 +282,10 @@ theorem validate_labels (h : GoMap) (prot : Bool) (hv : validateHeaderParameters
 
 /-! ### 3 : lookups are order independent under `LabelsOK` -/
 
+end C13
+
+namespace HeadersDeep
+
 /-- `find?` is order independent when at most one entry satisfies the predicate -/
 theorem find?_perm_of_unique {α : Type} {l l' : List α} (hp : l.Perm l') (p : α → Bool)
     (hu : ∀ a ∈ l, ∀ b ∈ l, p a = true → p b = true → a = b) : l.find? p = l'.find? p := by
@@ -303,6 +307,11 @@ theorem find?_perm_of_unique {α : Type} {l l' : List α} (hp : l.Perm l') (p : 
       have hb := hp.mem_iff.mpr (List.mem_of_find?_eq_some h')
       have hpb := List.find?_some h'
       rw [hu a ha b hb hpa hpb]
+
+end HeadersDeep
+
+namespace C13
+open HeadersDeep
 
 theorem goLookup_perm (h h' : GoMap) (hp : h.Perm h') (hok : LabelsOK h) (label : GoVal) :
     h.lookup label = h'.lookup label := by
@@ -410,25 +419,27 @@ theorem hasLabel_norm' (h : GoMap) (l n : GoVal) (hn : normalizeLabel l = some n
     | none => rw [hf] at hlk; cases hlk
     | some e =>
       have he := List.mem_of_find?_eq_some hf
-      have hk : e.1.keyEq l = true := List.find?_some hf
+      have hk := List.find?_some hf
       have := eq_of_keyEq_of_normalizes' hl hk
       exact ⟨e, he, by rw [this, hn]⟩
   | none =>
     simp only [hn]
-    have hsome : ∀ o : Option (GoVal × GoVal),
-        (match o with | some e => some e.2 | none => none).isSome = o.isSome := by
-      intro o; cases o <;> rfl
-    rw [hsome, List.find?_isSome]
-    constructor
-    · rintro ⟨e, he, hp⟩
+    split
+    · rename_i e hf2
+      simp only [Option.isSome_some, true_iff]
+      have he := List.mem_of_find?_eq_some hf2
+      have hp := List.find?_some hf2
       refine ⟨e, he, ?_⟩
       cases hne : normalizeLabel e.1 with
       | none => simp [hne] at hp
       | some g =>
         simp only [hne] at hp
         rw [(keyEq_normalize_iff hne hn).mp hp]
-    · rintro ⟨e, he, hne⟩
-      refine ⟨e, he, ?_⟩
+    · rename_i hf2
+      simp only [Option.isSome_none, Bool.false_eq_true, false_iff]
+      rw [List.find?_eq_none] at hf2
+      rintro ⟨e, he, hne⟩
+      apply hf2 e he
       simp only [hne]
       exact (keyEq_normalize_iff hne hn).mpr rfl
 
@@ -465,9 +476,6 @@ theorem hasLabel_congr_norm (h h' : GoMap) (hn : normLabels h = normLabels h') (
       intro m
       unfold normLabels
       rw [List.mem_map]
-      constructor
-      · rintro ⟨e, he, h1⟩; exact ⟨e, he, h1⟩
-      · rintro ⟨e, he, h1⟩; exact ⟨e, he, h1⟩
     have h1 := hasLabel_norm' h l n hn'
     have h2 := hasLabel_norm' h' l' n (by rw [← hl, hn'])
     rw [hmem] at h1 h2
@@ -644,6 +652,10 @@ theorem encodePairs_eq_none_iff (cfg : EncCfg) (l : GoMap) :
         · have := ih.mpr ⟨x, hx, hxe⟩
           rw [hr] at this; cases this
 
+end C08
+
+namespace HeadersDeep
+
 theorem some_map_injective {α : Type} : ∀ {l l' : List α}, l.map some = l'.map some → l = l'
   | [], [], _ => rfl
   | [], _ :: _, h => by simp at h
@@ -670,6 +682,11 @@ theorem perm_map_some {α : Type} {l : List α} {m : List (Option α)} (hp : (l.
   refine ⟨m.filterMap id, hm, ?_⟩
   have := hp.filterMap id
   simpa [List.filterMap_map] using this
+
+end HeadersDeep
+
+namespace C08
+open HeadersDeep
 
 /-- 7. -/
 theorem encodePairs_perm (cfg : EncCfg) (l l' : GoMap) (hp : l.Perm l') :
@@ -762,5 +779,211 @@ theorem encodeBucket_perm_invariant (l l' : GoMap) (prot : Bool) (raw : Option B
     cases r with
     | nil => exact key (some []) (by intro b bs h; cases h)
     | cons b bs => rw [encodeBucket, encodeBucket]
+
+/-! ### 10 : validated buckets have pairwise distinct encoded keys -/
+
+end C08
+
+namespace HeadersDeep
+
+theorem ofNat_eq_iff (a b : Nat) : UInt8.ofNat a = UInt8.ofNat b ↔ a % 256 = b % 256 := by
+  constructor
+  · intro h
+    have := congrArg UInt8.toNat h
+    simpa [UInt8.toNat_ofNat'] using this
+  · intro h
+    apply UInt8.toNat_inj.mp
+    simp [UInt8.toNat_ofNat', h]
+
+theorem shortest_cases (n : Nat) :
+    (n < 24 ∧ HW.shortest n = .imm) ∨ (24 ≤ n ∧ n < 256 ∧ HW.shortest n = .w1) ∨
+    (256 ≤ n ∧ n < 65536 ∧ HW.shortest n = .w2) ∨
+    (65536 ≤ n ∧ n < 4294967296 ∧ HW.shortest n = .w4) ∨
+    (4294967296 ≤ n ∧ HW.shortest n = .w8) := by
+  unfold HW.shortest
+  by_cases h1 : n < 24
+  · simp [h1]
+  · by_cases h2 : n < 256
+    · simp [h1, h2]; omega
+    · by_cases h3 : n < 65536
+      · simp [h1, h2, h3]; omega
+      · by_cases h4 : n < 4294967296
+        · simp [h1, h2, h3, h4]; omega
+        · simp [h1, h2, h3, h4]; omega
+
+/-- a shortest-form head determines its major type and its argument (modulo 2^64: the model's
+    `headBytes` truncates larger arguments, which never occur for Go integers) -/
+theorem encHead_inj {m m' n n' : Nat} (hm : m < 8) (hm' : m' < 8)
+    (h : encHead m n = encHead m' n') :
+    m = m' ∧ n % 18446744073709551616 = n' % 18446744073709551616 := by
+  unfold encHead at h
+  rcases shortest_cases n with ⟨a1, e1⟩ | ⟨a1, a2, e1⟩ | ⟨a1, a2, e1⟩ | ⟨a1, a2, e1⟩ | ⟨a1, e1⟩ <;>
+  rcases shortest_cases n' with ⟨b1, e2⟩ | ⟨b1, b2, e2⟩ | ⟨b1, b2, e2⟩ | ⟨b1, b2, e2⟩ | ⟨b1, e2⟩ <;>
+  rw [e1, e2] at h <;>
+  simp only [headBytes, List.cons.injEq, ofNat_eq_iff, and_true, reduceCtorEq, and_false] at h <;>
+  omega
+
+def hwLen : HW → Nat
+  | .imm => 1 | .w1 => 2 | .w2 => 3 | .w4 => 5 | .w8 => 9
+
+theorem headBytes_length (m : Nat) (w : HW) (n : Nat) : (headBytes m w n).length = hwLen w := by
+  cases w <;> rfl
+
+theorem hwLen_shortest_mono {n n' : Nat} (h : n ≤ n') :
+    hwLen (HW.shortest n) ≤ hwLen (HW.shortest n') := by
+  rcases shortest_cases n with ⟨a1, e1⟩ | ⟨a1, a2, e1⟩ | ⟨a1, a2, e1⟩ | ⟨a1, a2, e1⟩ | ⟨a1, e1⟩ <;>
+  rcases shortest_cases n' with ⟨b1, e2⟩ | ⟨b1, b2, e2⟩ | ⟨b1, b2, e2⟩ | ⟨b1, b2, e2⟩ | ⟨b1, e2⟩ <;>
+  rw [e1, e2] <;> simp only [hwLen] <;> omega
+
+/-- text strings encode injectively (the head determines the length) -/
+theorem encTstr_inj {b b' : Bytes} (h : encTstr b = encTstr b') : b = b' := by
+  unfold encTstr encHead at h
+  have hl := congrArg List.length h
+  simp only [List.length_append, headBytes_length] at hl
+  have hlen : b.length = b'.length := by
+    rcases Nat.lt_trichotomy b.length b'.length with hlt | heq | hgt
+    · have := hwLen_shortest_mono (Nat.le_of_lt hlt); omega
+    · exact heq
+    · have := hwLen_shortest_mono (Nat.le_of_lt hgt); omega
+  rw [hlen] at h
+  exact List.append_cancel_left h
+
+theorem encHead_first (m n : Nat) :
+    ∃ x t, x ≤ 27 ∧ encHead m n = UInt8.ofNat (m * 32 + x) :: t := by
+  unfold encHead
+  rcases shortest_cases n with ⟨a1, e1⟩ | ⟨a1, a2, e1⟩ | ⟨a1, a2, e1⟩ | ⟨a1, a2, e1⟩ | ⟨a1, e1⟩ <;>
+  rw [e1] <;> simp only [headBytes]
+  · exact ⟨n, [], by omega, rfl⟩
+  · exact ⟨24, _, by omega, rfl⟩
+  · exact ⟨25, _, by omega, rfl⟩
+  · exact ⟨26, _, by omega, rfl⟩
+  · exact ⟨27, _, by omega, rfl⟩
+
+theorem encInt_eq_head (v : Int) : ∃ m n, m ≤ 1 ∧ encInt v = encHead m n := by
+  unfold encInt
+  split
+  · exact ⟨0, _, by omega, rfl⟩
+  · exact ⟨1, _, by omega, rfl⟩
+
+/-- an integer key and a text key never encode alike (major types differ) -/
+theorem encInt_ne_encTstr (v : Int) (b : Bytes) : encInt v ≠ encTstr b := by
+  intro h
+  obtain ⟨m, n, hm, he⟩ := encInt_eq_head v
+  obtain ⟨x, t, hx, h1⟩ := encHead_first m n
+  obtain ⟨x', t', hx', h2⟩ := encHead_first 3 b.length
+  rw [he, h1, encTstr, h2, List.cons_append, List.cons.injEq, ofNat_eq_iff] at h
+  omega
+
+/-- integers that encode alike have the same `int64` normal form -/
+theorem wrap64_eq_of_encInt_eq {v v' : Int} (h : encInt v = encInt v') : wrap64 v = wrap64 v' := by
+  have hmod : v % 18446744073709551616 = v' % 18446744073709551616 := by
+    unfold encInt at h
+    split at h <;> split at h
+    · have := (encHead_inj (by omega) (by omega) h).2; omega
+    · have := (encHead_inj (by omega) (by omega) h).1; omega
+    · have := (encHead_inj (by omega) (by omega) h).1; omega
+    · have := (encHead_inj (by omega) (by omega) h).2; omega
+  unfold wrap64
+  rw [hmod]
+
+/-- labels that encode alike normalise alike -/
+theorem label_enc_inj (cfg : EncCfg) {x y a b : GoVal} (hx : normalizeLabel x = some a)
+    (hy : normalizeLabel y = some b) (he : encodeAny cfg x = encodeAny cfg y) : a = b := by
+  cases x <;> simp only [normalizeLabel, Option.some.injEq, reduceCtorEq] at hx <;>
+  cases y <;> simp only [normalizeLabel, Option.some.injEq, reduceCtorEq] at hy <;>
+  subst hx hy <;> simp only [encodeAny, Option.some.injEq] at he
+  · rw [wrap64_eq_of_encInt_eq he]
+  · exact absurd he (encInt_ne_encTstr _ _)
+  · exact absurd he.symm (encInt_ne_encTstr _ _)
+  · rw [encTstr_inj he]
+
+end HeadersDeep
+
+namespace C08
+open HeadersDeep
+
+theorem encPair_fst {cfg : EncCfg} {e : GoVal × GoVal} {p : Bytes × Bytes}
+    (h : encPair cfg e = some p) : encodeAny cfg e.1 = some p.1 := by
+  unfold encPair at h
+  cases h1 : encodeAny cfg e.1 <;> cases h2 : encodeAny cfg e.2 <;> simp [h1, h2] at h
+  rw [← h]
+
+/-- distinct labels (after normalisation) give distinct encoded keys -/
+theorem keys_nodup_of_labelsOK (cfg : EncCfg) (h : GoMap) (hok : LabelsOK h) :
+    ∀ ps, encodePairs cfg h = some ps →
+      (ps.map Prod.fst).Nodup ∧ ∀ kb ∈ ps.map Prod.fst, ∃ e ∈ h, encodeAny cfg e.1 = some kb := by
+  induction h with
+  | nil =>
+    intro ps he
+    rw [encodePairs] at he
+    cases he
+    simp
+  | cons e r ih =>
+    intro ps he
+    have hx : normalizeLabel e.1 ≠ none := hok.1 e (List.mem_cons_self ..)
+    have hok' : LabelsOK r :=
+      ⟨fun x hx => hok.1 x (List.mem_cons_of_mem _ hx), (List.pairwise_cons.mp hok.2).2⟩
+    have hd := (List.pairwise_cons.mp hok.2).1
+    rw [encodePairs_cons] at he
+    cases hp : encPair cfg e with
+    | none => simp [hp] at he
+    | some p =>
+      cases hr : encodePairs cfg r with
+      | none => simp [hp, hr] at he
+      | some c =>
+        simp only [hp, hr, Option.some.injEq] at he
+        subst he
+        obtain ⟨hnd, hmem⟩ := ih hok' c hr
+        have hk := encPair_fst hp
+        refine ⟨?_, ?_⟩
+        · rw [List.map_cons, List.nodup_cons]
+          refine ⟨?_, hnd⟩
+          intro hin
+          obtain ⟨e', he', hk'⟩ := hmem _ hin
+          have hx' : normalizeLabel e'.1 ≠ none := hok'.1 e' he'
+          cases hna : normalizeLabel e.1 with
+          | none => exact hx hna
+          | some a =>
+            cases hnb : normalizeLabel e'.1 with
+            | none => exact hx' hnb
+            | some b =>
+              have hab := label_enc_inj cfg hna hnb (by rw [hk, hk'])
+              subst hab
+              have := hd e' he' a a hna hnb
+              rw [(keyEq_normalize_iff hna hnb).mpr rfl] at this
+              cases this
+        · intro kb hkb
+          rw [List.map_cons, List.mem_cons] at hkb
+          rcases hkb with rfl | hkb
+          · exact ⟨e, List.mem_cons_self .., hk⟩
+          · obtain ⟨e', he', hk'⟩ := hmem kb hkb
+            exact ⟨e', List.mem_cons_of_mem _ he', hk'⟩
+
+/-- 10. the hypothesis `hd` of `encodeBucket_perm_invariant` holds for every validated bucket;
+    no range hypothesis on integer labels is needed -/
+theorem bucket_keys_nodup (h : GoMap) (prot : Bool) (hv : validateHeaderParameters h prot = true)
+    (ps : List (Bytes × Bytes)) (he : encodePairs encCfg h = some ps) : (ps.map Prod.fst).Nodup :=
+  (keys_nodup_of_labelsOK encCfg h (C13.validate_labels h prot hv) ps he).1
+
+/-- 9 without side condition: the bytes of a header bucket never depend on the iteration order
+    (a bucket that fails validation is not encoded at all) -/
+theorem encodeBucket_perm_invariant' (l l' : GoMap) (prot : Bool) (raw : Option Bytes)
+    (hp : l.Perm l') : encodeBucket encCfg prot raw l = encodeBucket encCfg prot raw l' := by
+  by_cases hv : validateHeaderParameters l prot = true
+  · exact encodeBucket_perm_invariant l l' prot raw hp (bucket_keys_nodup l prot hv)
+  · have hv' : validateHeaderParameters l' prot ≠ true := by
+      rw [← C13.validate_perm_invariant l l' hp prot]; exact hv
+    match raw, l, l', hp, hv, hv' with
+    | some (b :: bs), _, _, _, _, _ => rw [encodeBucket, encodeBucket]
+    | none, [], l', hp, _, _ => rw [hp.symm.eq_nil]
+    | some [], [], l', hp, _, _ => rw [hp.symm.eq_nil]
+    | none, e :: es, [], hp, _, _ => exact absurd hp.eq_nil (by simp)
+    | some [], e :: es, [], hp, _, _ => exact absurd hp.eq_nil (by simp)
+    | none, e :: es, e' :: es', _, hv, hv' =>
+      rw [encodeBucket, encodeBucket]
+      all_goals first | (simp [encCfg, hv, hv']) | (intro b bs h; cases h)
+    | some [], e :: es, e' :: es', _, hv, hv' =>
+      rw [encodeBucket, encodeBucket]
+      all_goals first | (simp [encCfg, hv, hv']) | (intro b bs h; cases h)
 
 end C08
